@@ -571,10 +571,26 @@ func countedIndex(ph *ssa.Phi) ssa.Value {
 		return nil
 	}
 	cmp, ok := br.Cond.(*ssa.BinOp)
-	if !ok || cmp.Op != token.LSS || cmp.X != ssa.Value(ph) {
+	if !ok || cmp.X != ssa.Value(ph) {
 		return nil
 	}
-	c, ok := cmp.Y.(*ssa.Call)
+	bound := cmp.Y
+	switch cmp.Op {
+	case token.LSS:
+	case token.LEQ:
+		// i <= len(x) - 1
+		sub, ok := bound.(*ssa.BinOp)
+		if !ok || sub.Op != token.SUB {
+			return nil
+		}
+		if one, ok := sub.Y.(*ssa.Const); !ok || one.Value == nil || one.Value.ExactString() != "1" {
+			return nil
+		}
+		bound = sub.X
+	default:
+		return nil
+	}
+	c, ok := bound.(*ssa.Call)
 	if !ok {
 		return nil
 	}
@@ -968,12 +984,55 @@ func (c *Ctx) memAtEntry(a *ssa.Alloc, path []int, b *ssa.BasicBlock, typ types.
 	case d.empty():
 		return zeroTerm(typ)
 	case d.top:
-		return &Term{Kind: "memphi", Name: fmt.Sprintf("%s%v@%d", a.Comment, path, d.blk), ID: c.site + funcID(c.fn), Typ: typ}
+		t := &Term{Kind: "memphi", Name: fmt.Sprintf("%s%v@%d", a.Comment, path, d.blk), ID: c.site + funcID(c.fn), Typ: typ, C: c}
+		memphiInfo[t.Key()] = memphiSite{c, a, append([]int{}, path...), d.blk, typ}
+		return t
 	}
 	if t := c.defAt(d.in, a, path, typ); t != nil {
 		return t
 	}
 	return zeroTerm(typ)
+}
+
+// memphiSite: where a memory merge term was formed, so that rules can expand it into cases.
+type memphiSite struct {
+	c    *Ctx
+	a    *ssa.Alloc
+	path []int
+	blk  int
+	typ  types.Type
+}
+
+var memphiInfo = map[string]memphiSite{}
+
+// memCases: the values a memory merge term can stand for, each with the path condition of the edge
+// it arrives on (merges on the way are expanded; loop-carried merges are left as they are).
+func memCases(t *Term, depth int) ([]*Formula, []*Term) {
+	ms, ok := memphiInfo[t.Key()]
+	if !ok || depth > 4 {
+		return []*Formula{FTrue}, []*Term{t}
+	}
+	b := ms.c.fn.Blocks[ms.blk]
+	var gs []*Formula
+	var ts []*Term
+	for _, p := range b.Preds {
+		if ms.c.fi.backEdge[[2]int{p.Index, b.Index}] {
+			return []*Formula{FTrue}, []*Term{t}
+		}
+		v := ms.c.memAt(ms.a, ms.path, p.Index, len(p.Instrs), ms.typ)
+		g := ms.c.edgePC(p, b)
+		if v.Kind == "memphi" && v.Key() != t.Key() {
+			ig, it := memCases(v, depth+1)
+			for i := range it {
+				gs = append(gs, And(g, ig[i]))
+				ts = append(ts, it[i])
+			}
+			continue
+		}
+		gs = append(gs, g)
+		ts = append(ts, v)
+	}
+	return gs, ts
 }
 
 // memDefn is an element of the reaching-definition lattice.
